@@ -7,11 +7,10 @@ use rtlib::{
     dag::{node_name, Cmd, Dag, Kind, Node, Op},
     policy::{ActionScript, Publish},
     refmodel::{dump, BraidError, Fail, Ref},
-    replica::{MemReplica, Obs},
-    rt::{ClientError, PolicyError, StorageError, Transaction},
+    replica::{Obs, Replica},
+    rt::{ClientError, PolicyError, StorageError, StorageProvider, Transaction},
 };
 
-type Trx = Transaction<rtlib::rt::storage::linear::testing::MemStorageProvider, rtlib::policy::AuditStore>;
 
 #[derive(Clone, Debug, PartialEq, Eq, Hash, PartialOrd, Ord)]
 pub enum Ev {
@@ -104,11 +103,11 @@ pub struct SimOracles {
     pub monotone: bool,
 }
 
-pub struct Sim {
+pub struct Sim<SP: StorageProvider> {
     pub dag: Dag,
     cmds: Vec<Cmd>,
-    pub replica: MemReplica,
-    trxs: Vec<Option<Trx>>,
+    pub replica: Replica<SP>,
+    trxs: Vec<Option<Transaction<SP, rtlib::policy::AuditStore>>>,
     tm: Vec<TrxModel>,
     pub committed: u128,
     epoch: u64,
@@ -127,14 +126,14 @@ pub struct Sim {
     pub abandon_on_add_error: bool,
 }
 
-impl Sim {
-    pub fn new(dag: &Dag, oracles: SimOracles) -> Self {
+impl<SP: StorageProvider> Sim<SP> {
+    pub fn new(dag: &Dag, oracles: SimOracles, make: fn(rtlib::rt::GraphId) -> Replica<SP>) -> Self {
         let cmds = dag.cmds();
         let graph = rtlib::replica::graph_id_of(cmds[0].id);
         Sim {
             dag: dag.clone(),
             cmds,
-            replica: MemReplica::new_mem(graph),
+            replica: make(graph),
             trxs: Vec::new(),
             tm: Vec::new(),
             committed: 0,
